@@ -10,3 +10,6 @@ import ExaModel.Props.C02
 #print axioms Exa.Props.C02.report_withdraw_iff
 #print axioms Exa.Props.C02.attr_table_matches_rfc
 #print axioms Exa.Props.C02.family_table_matches_rfc
+#print axioms Exa.Props.C02.aigp_absent_when_session_disabled
+#print axioms Exa.Props.C02.aigp_reported_when_session_enabled
+#print axioms Exa.Props.C02.aigp_changes_type_26_only
